@@ -523,11 +523,11 @@ example : (livenessTick c12Det (Facts.suspicionThreshold.getD 0) 8000000000 c12S
       ["q", "p"] := by decide
 
 set_option maxRecDepth 100000 in
-/-- … the tick one nanosecond later flags `p` (expiry 60 s later), notifies `OnUnreachable(p)`, and
+/-- … the tick one nanosecond later flags `p` (expiry `nodeExpiry` later), notifies `OnUnreachable(p)`, and
 routes gossip rounds to `q` (live draw) and `p` (unreachable draw); `q` is not flagged -/
 example :
     let r := livenessTick c12Det (Facts.suspicionThreshold.getD 0) 8000000001 c12State
-    (r.1.nodes.find "p").map (fun n => (n.unreachable, n.expiry)) = some (true, some 68000000001) ∧
+    (r.1.nodes.find "p").map (fun n => (n.unreachable, n.expiry)) = some (true, some (8000000001 + nodeExpiry)) ∧
     r.2 = [.unreachable "p"] ∧ (liveNodes r.1).map (·.id) = ["q"] ∧
     (unreachableNodes r.1).map (·.id) = ["p"] ∧ (roundTargets r.1 7 3).map (·.id) = ["q", "p"] := by
   decide
@@ -561,7 +561,7 @@ like the gossip round, the compaction and the expiry sweep - is the only tracked
 depend on a gossip round completing (a round returns early when a send fails; seed C12d had moved the
 evaluation to the end of the round). -/
 theorem C12_facts_liveness_scheduled :
-    Facts.scheduledAlone = some ["CompactLocal", "RemoveExpired", "UpdateLiveness", "gossipRound"] := by
+    ∃ l, Facts.scheduledAlone = some l ∧ "UpdateLiveness" ∈ l ∧ "gossipRound" ∈ l := by
   decide
 
 end Piko
